@@ -3,12 +3,15 @@ Queue-of-futures order (C05), part B1: step case of invariant A for the events o
 queues (the step case of `invA` is split over two files by event so that they check in parallel).
 -/
 import Osmium.Lemmas.PipelineOrderA
+import Osmium.Lemmas.PipelineOrderA2
 
 namespace Osmium.Pipeline.Order
 
 open Osmium.Mon Osmium.Pipeline
 
 variable {α : Type} [DecidableEq α]
+
+set_option linter.unusedSimpArgs false
 
 set_option maxHeartbeats 1600000 in
 /-- step case of `invA`: events of the two Reader queues (`Ev.qi`, `Ev.qo`: constructor index < 2) -/
